@@ -34,7 +34,11 @@ theorem heap_root_le {s : St} (h : SInv s) {e : Elem} (htop : top s.timed = .ok 
     e.key ≤ s.ts t := by
   obtain ⟨_, he⟩ := top_ok htop
   obtain ⟨e', he', rfl⟩ := mem_heapTasks.mp ht
-  have := (root_min h.heap he).2 e' he'
+  have hle := (root_min tsCmp_ok h.heap he).2 e' he'
+  have hm : e ∈ s.timed.items.toList := Array.mem_def.mp (Array.mem_of_getElem? he)
+  have b1 : e.key < 2^64 := by have := h.tsBound e.uid; rw [← h.heapKey e hm] at this; unfold UINT64_MAX at this; omega
+  have b2 : e'.key < 2^64 := by have := h.tsBound e'.uid; rw [← h.heapKey e' he'] at this; unfold UINT64_MAX at this; omega
+  have := (tsCmp_le_iff b1 b2).mp hle
   rw [h.heapKey e' he'] at this
   exact this
 
